@@ -385,12 +385,18 @@ type fakeStream struct {
 	sent []*gpb.SubscribeResponse
 	done chan struct{}
 	n    int
+	// halfClose: the subscriber closes its request direction right after the
+	// subscription request (legal gRPC) and keeps reading
+	halfClose bool
 }
 
 func (s *fakeStream) Recv() (*gpb.SubscribeRequest, error) {
 	s.n++
 	if s.n == 1 {
 		return s.req, nil
+	}
+	if s.halfClose {
+		return nil, io.EOF
 	}
 	<-s.done
 	return nil, io.EOF
@@ -477,12 +483,18 @@ func specGrid(tier string) seqmc.Spec {
 				finite = false
 			}
 		}
-		if finite {
+		for _, half := range []bool{false, true} {
+			if !finite {
+				break
+			}
 			cfg := &fpb.Config{Target: "t", Seed: c.seed, Values: c.values()}
 			cl := fgnmi.NewClient(cfg)
-			st := &fakeStream{req: &gpb.SubscribeRequest{Request: &gpb.SubscribeRequest_Subscribe{Subscribe: &gpb.SubscriptionList{}}}, done: make(chan struct{})}
+			st := &fakeStream{req: &gpb.SubscribeRequest{Request: &gpb.SubscribeRequest_Subscribe{Subscribe: &gpb.SubscriptionList{}}}, done: make(chan struct{}), halfClose: half}
 			cl.Run(st)
 			close(st.done)
+			if half {
+				desc += " [subscriber half-closed]"
+			}
 			seen := map[string]bool{}
 			syncs := 0
 			var lastTS int64 = -1 << 62
